@@ -118,6 +118,7 @@ InitCalls ==
   \cup {[C("InitAdd") EXCEPT !.g = g, !.v = v] : g \in G, v \in V}
   \cup {[C("Register") EXCEPT !.g = g, !.v = v] : g \in G, v \in V}
   \cup {[C("SetName") EXCEPT !.v = v, !.name = nm] : v \in V, nm \in Names0}
+  \cup {[C("SetName") EXCEPT !.v = v, !.name = BadName] : v \in {x \in V : StrictTensor(st, x)}}
   \cup {[C("InitSetdefault") EXCEPT !.g = g, !.name = nm, !.v = v] : g \in G, nm \in NamePool, v \in PV}
   \cup {[C("InitUpdate2") EXCEPT !.g = g, !.v = v, !.w = w] : g \in G, v \in PV, w \in PV}
   \* explicit keys (the second key is carried in field k): the same or another value under a second key
